@@ -53,6 +53,7 @@ type pController struct {
 	Methods []pMethod `json:"methods"`
 	NoEmbed bool      `json:"noEmbed,omitempty"` // a plain struct that does NOT embed GleeceController
 	Grouped bool      `json:"grouped,omitempty"` // declared inside a documented `type ( ... )` group
+	Unglobbed bool    `json:"unglobbed,omitempty"` // lives in a file no controllerGlob matches: must never contribute
 }
 
 type pField struct {
